@@ -421,10 +421,18 @@ def qpGo (buf : List Byte) (off chunk llen : Nat) (sb : List Byte) (st : St) : R
       -- soft line break; afterwards `continue`
       let bs ← cpy buf off chunk
       let sb1 ← push qpCap sb bs
-      let sb2 ← push qpCap [] ((softTail buf (off + chunk) sb1).1 ++ [EQ, CR, LF])
       match (softTail buf (off + chunk) sb1).2 with
-      | true => qpGo buf (off + chunk + 1) 0 0 sb2 st
-      | false => qpGo buf (off + chunk) 0 0 sb2 st
+      | true =>
+        if off + chunk + 1 = buf.length then do
+          -- that was the last byte: `break`, no line break is added
+          let sb2 ← push qpCap [] (softTail buf (off + chunk) sb1).1
+          qpGo buf (off + chunk + 1) 0 llen sb2 st
+        else do
+          let sb2 ← push qpCap [] ((softTail buf (off + chunk) sb1).1 ++ [EQ, CR, LF])
+          qpGo buf (off + chunk + 1) 0 0 sb2 st
+      | false => do
+        let sb2 ← push qpCap [] ((softTail buf (off + chunk) sb1).1 ++ [EQ, CR, LF])
+        qpGo buf (off + chunk) 0 0 sb2 st
     else if llen = 0 ∧ c = DOT then do
       let bs ← cpy buf off (chunk + 1)
       let sb ← push qpCap sb (bs ++ [DOT])
